@@ -22,20 +22,19 @@ r5 = {"C01":"caught","C02":"missed first; caught after the sign-of-life schedule
 "C14":"caught","C15":"caught","C16":"caught",
 "C17":"missed first; caught after redirect chains generated from spec/RedirectChain.tla",
 "C18":"caught","C19":"caught","C20":"missed first; caught after play conversations through a relay that makes media controls absolute URLs"}
-r7 = {"C01":"missed first; caught after late secure readers meet formats of one media with different roll-over counters",
-"C02":"caught","C03":"missed first; caught after MPEG-TS groups of many TS packets and a limit that is not a multiple of 188",
-"C04":"missed first; caught after limit elements delivered in pieces (LimitSame)","C05":"caught",
-"C06":"missed first; caught after payload limits around sums of the few legal unit sizes",
-"C07":"missed first; caught after MPEG-1 video frames made of one fragmented slice","C08":"caught","C09":"caught","C10":"caught",
-"C11":"missed first; caught after class udp_no_ports in HostileConn.tla",
-"C12":"missed first; caught after the scripted server streams on the back channel with its own payload type",
-"C13":"missed first; caught after CloseStream / JoinRefused in StreamReaders.tla",
-"C14":"missed first; caught after the record-direction restart scenario",
-"C15":"missed first; caught after arrival times and B-frames in the step sequences","C16":"caught (repeats C16-6)",
-"C17":"not caught by C17 (only reachable over UDP, where C17 claims no completeness); caught by the registered C18 check, whose property it breaks first",
-"C18":"caught","C19":"missed first; caught after steal method FRAME",
-"C20":"missed first; caught after relay style cbpath (Content-Base reduced to path and query)"}
-for rnd, tbl, logf in ((7, r7, '/tmp/wt7/confirm.log'),):
+r8 = {"C01":"missed first; caught after the ping scenario (requests answered while frames are written to the same connection)",
+"C02":"NOT detected: the change concerns a second control connection of one session (a visitor whose request fails); the C02 model and Level A speak about one control connection per conversation - see DESIGN.md, eighth round",
+"C03":"missed first; caught after KLV limits 16..20 and consecutive units across the BER length thresholds",
+"C04":"missed first; caught after Still (earlier requests / responses re-inspected after later reads)",
+"C05":"missed first by C05 (caught by C09 as it stood); caught by C05 after MIKEY with KV=SPI and an empty SPI",
+"C06":"caught","C07":"caught","C08":"caught","C09":"caught","C10":"caught",
+"C11":"missed first by C11 (caught by C05 and C09 as they stood); caught by C11 after class sdp_mikey_short",
+"C12":"caught (repeats C12-6)","C13":"caught",
+"C14":"missed first; caught after the end-to-end order scenario (UDP client with AnyPortEnable)",
+"C15":"caught (repeats C15-6)","C16":"caught",
+"C17":"missed first; caught after mode auto (automatic fallback from UDP to TCP in a secure session)",
+"C18":"caught","C19":"missed first; caught after the per-media source scenario","C20":"caught"}
+for rnd, tbl, logf in ((8, r8, '/tmp/wt8/confirm.log'),):
     log = open(logf).read() if os.path.exists(logf) else ""
     for pid, res in tbl.items():
         d = '/verif/seeded/%s-%d' % (pid, rnd)
